@@ -365,24 +365,79 @@ def _run_base(ctx):
              'every path returns explicitly' if not fall else 'a path returns None implicitly (callers unpack 3 values)',
              ra)
     ig = repo.func(GF + ':is_gitref')
-    rets = [n for n in walk_no_nested(ig) if isinstance(n, ast.Return)]
-    if len(rets) != 1 or not isinstance(rets[0].value, ast.BoolOp) or not isinstance(rets[0].value.op, ast.And):
-        raise AnalysisError('is_gitref is no longer a single conjunction')
-    conj = rets[0].value.values
     p = ig.args.args[0].arg
-    want = {
-        'not an existing file': lambda e: any(isinstance(n, ast.UnaryOp) and isinstance(n.op, ast.Not) and
-                                              any(isinstance(c, ast.Call) and dotted(c.func) == 'os.path.exists'
-                                                  for c in ast.walk(n.operand)) for n in ast.walk(e)),
-        'not the null file': lambda e: isinstance(e, ast.Compare) and isinstance(e.ops[0], ast.NotEq) and
-        'EXPLICIT_MISSING_FILE' in (dotted(e.left), dotted(e.comparators[0])),
-        'valid git ref': lambda e: isinstance(e, ast.Call) and any(
-            t == ('func', GF + ':is_valid_gitref') for t in cg.resolve(e.func, ig)),
-    }
-    for what, pred in want.items():
-        ok = any(pred(e) for e in conj)
-        ctx.inst('R17.4', GF + ':is_gitref', 'conjunct: ' + what, ok,
-                 'present' if ok else 'conjunct missing: a file name / the null file could be taken for a git ref', rets[0])
+    # truth table of is_gitref over its four observations, whatever the layout (one conjunction, guard clauses, nested ifs):
+    #   N: candidate is None   E: os.path.exists(candidate)   M: candidate == EXPLICIT_MISSING_FILE   V: is_valid_gitref(candidate)
+    import itertools as _it
+
+    def _ev(e, env):
+        if isinstance(e, ast.Constant) and isinstance(e.value, bool):
+            return e.value
+        if isinstance(e, ast.UnaryOp) and isinstance(e.op, ast.Not):
+            return not _ev(e.operand, env)
+        if isinstance(e, ast.BoolOp):
+            vals = e.values
+            if isinstance(e.op, ast.And):
+                for v in vals:
+                    if not _ev(v, env):
+                        return False
+                return True
+            for v in vals:
+                if _ev(v, env):
+                    return True
+            return False
+        if isinstance(e, ast.Compare) and len(e.ops) == 1 and dotted(e.left) == p:
+            r = e.comparators[0]
+            if isinstance(r, ast.Constant) and r.value is None and isinstance(e.ops[0], (ast.Is, ast.Eq, ast.IsNot, ast.NotEq)):
+                return env['N'] if isinstance(e.ops[0], (ast.Is, ast.Eq)) else not env['N']
+            if (dotted(r) or '').endswith('EXPLICIT_MISSING_FILE') and isinstance(e.ops[0], (ast.Eq, ast.NotEq, ast.Is, ast.IsNot)):
+                return env['M'] if isinstance(e.ops[0], (ast.Eq, ast.Is)) else not env['M']
+        if isinstance(e, ast.Call) and len(e.args) >= 1 and dotted(e.args[0]) == p:
+            names = {t[1] for t in cg.resolve(e.func, ig) if t[0] == 'ext'} | {dotted(e.func) or ''}
+            if names & {'os.path.exists', 'os.path.lexists'}:
+                if env['N']:
+                    raise AnalysisError('is_gitref: os.path.exists is reached with candidate None (raises TypeError)')
+                return env['E']
+            if any(t == ('func', GF + ':is_valid_gitref') for t in cg.resolve(e.func, ig)):
+                return env['V']
+        if isinstance(e, ast.Name) and e.id in env:
+            return env[e.id]
+        raise AnalysisError('is_gitref: expression `%s` not modelled' % ast.unparse(e)[:60])
+
+    def _run(stmts, env):
+        for st in stmts:
+            if isinstance(st, ast.Expr) and isinstance(st.value, ast.Constant):
+                continue
+            if isinstance(st, ast.Return):
+                return _ev(st.value, env) if st.value is not None else None
+            if isinstance(st, ast.If):
+                r = _run(st.body if _ev(st.test, env) else st.orelse, env)
+                if r is not _FALL:
+                    return r
+                continue
+            if isinstance(st, ast.Assign) and len(st.targets) == 1 and isinstance(st.targets[0], ast.Name):
+                env[st.targets[0].id] = _ev(st.value, env)
+                continue
+            if isinstance(st, ast.Pass):
+                continue
+            raise AnalysisError('is_gitref: statement `%s` not modelled' % ast.unparse(st)[:60])
+        return _FALL
+    _FALL = object()
+    wrong = {'file': [], 'null': [], 'ref': []}
+    n_rows = 0
+    for N, E, M, V in _it.product((False, True), repeat=4):
+        if N and (E or M):
+            continue        # None is neither an existing path nor the null-file marker
+        got = _run(ig.body, {'N': N, 'E': E, 'M': M, 'V': V})
+        n_rows += 1
+        want_ = (N or not E) and not M and V
+        if got is _FALL or got is None or bool(got) != want_:
+            row = 'N=%d E=%d M=%d V=%d -> %s' % (N, E, M, V, 'falls off' if got is _FALL else got)
+            wrong['file' if E and not want_ else 'null' if M else 'ref'].append(row)
+    for key, what in (('file', 'not an existing file'), ('null', 'not the null file'), ('ref', 'valid git ref')):
+        ok = not wrong[key]
+        ctx.inst('R17.4', GF + ':is_gitref', 'conjunct: ' + what + '  [truth table over %d observation rows]' % n_rows, ok,
+                 'present' if ok else 'is_gitref answers wrongly for %s: a file name / the null file could be taken for a git ref (or a ref for a file)' % wrong[key][:2], ig)
 
 
 def const_val_(n):
